@@ -77,7 +77,10 @@ func c17Setup() {
 			r.StaticFiles("/assets", c17Root, "css|js")
 			r.StaticDir("/static", c17Root)
 		})
+		// a mount whose prefix has a path variable of its own (a theme): two variables in the route, "theme" and "file"
+		r.StaticFiles("/{theme}/assets", c17Root, "css|js")
 		c17Router = r
+		_ = r.String() // (the route table has been listed, as a debug endpoint or a start-up log does)
 		// ... and on a router that matches on the escaped path (the captured value is then the escaped text)
 		re := rux.New(rux.UseEncodedPath)
 		re.StaticDir("/static", c17Root)
@@ -154,6 +157,11 @@ func c17Gen(r *Rng, tier string, i int) Sx {
 		}
 		return L(A("get"), A("files"), S("/"+p))
 	}
+	if r.Chance(1, 12) { // the themed mount: "/<theme>/assets/<file>", also with the name of a file of the root as theme
+		theme := r.Pick([]string{"dark", "readme.md", "nodejs", ".hidden", "a.css", "sub"})
+		file := r.Pick([]string{"a.css", "app.js", "sub/x.css", "readme.md", "nodejs", "x.css", "../secret.js"})
+		return L(A("get"), A("tfiles"), S("/"+file), S(theme))
+	}
 	if other, ok := map[string]string{"dir": "dir2", "files": "files2", "dir2": "dir", "files2": "files"}[kind]; ok && r.Bool() {
 		// the same relative path has just been served by the registration over the other root
 		return L(A("get"), A(kind), S("/"+p), A(other))
@@ -169,7 +177,7 @@ func c17Exec(c Sx) Sx {
 	case "get":
 		kind, raw := c.List[1].Sym(), c.List[2].Str()
 		prefixes := map[string]string{"dir": "/static", "files": "/assets", "fs": "/fs", "one": "/one", "dir2": "/static2", "files2": "/assets2",
-			"gdir": "/grp/static", "gfiles": "/grp/assets", "dire": "/static", "filese": "/assets", "fse": "/fs"}
+			"gdir": "/grp/static", "gfiles": "/grp/assets", "dire": "/static", "filese": "/assets", "fse": "/fs", "tfiles": "/dark/assets"}
 		router := c17Router
 		if strings.HasSuffix(kind, "e") && kind != "one" {
 			router = c17RouterEnc
@@ -178,7 +186,9 @@ func c17Exec(c Sx) Sx {
 		if prefix == "" {
 			panic("c17: bad kind")
 		}
-		if len(c.List) > 3 { // first the same path through the other registration
+		if kind == "tfiles" && len(c.List) > 3 {
+			prefix = "/" + c.List[3].Str() + "/assets"
+		} else if len(c.List) > 3 { // first the same path through the other registration
 			if pu, err := url.Parse("http://h" + prefixes[c.List[3].Sym()] + raw); err == nil {
 				func() {
 					defer func() { _ = recover() }()
